@@ -556,8 +556,16 @@ func main() {
 	for bi, b := range behaviours {
 		vals := samples(rng)
 		n := 1
-		if b.API == "config" { // the map-ordered path is sampled several times
-			n = rounds
+		if b.API == "config" { // the map-ordered path is sampled several times when the order can matter
+			keys := map[string]bool{}
+			for _, r := range b.Regs {
+				if r.K != "PM" {
+					keys[r.K] = true
+				}
+			}
+			if len(keys) >= 2 {
+				n = rounds
+			}
 		}
 		for round := 0; round < n; round++ {
 			resetRegistry()
